@@ -419,13 +419,18 @@ func PublishContext[T any](bus *EventBus, ctx context.Context, event T) {
 				defer wg.Done()
 				defer bus.wg.Done()
 
-				// Check context before executing
-				select {
-				case <-ctx.Done():
-					return
-				default:
-					callHandlerWithContext(handler, ctx, event, bus.panicHandler, bus.observability, eventTypeName, true)
+				// Check context before executing. A Once handler has already been
+				// claimed and retired by this publish (whose context was live at
+				// that point): skipping it now would use it up without ever
+				// running it, so it runs and sees the cancelled context.
+				if !handler.once {
+					select {
+					case <-ctx.Done():
+						return
+					default:
+					}
 				}
+				callHandlerWithContext(handler, ctx, event, bus.panicHandler, bus.observability, eventTypeName, true)
 			}(h)
 		} else {
 			// Check context cancellation for sync handlers too
